@@ -1028,15 +1028,18 @@ func main() {
 	defer m.Close()
 	// C07_ONLY=cloner|stack|hot restricts a development run to one campaign.
 	only := os.Getenv("C07_ONLY")
-	if only != "stack" && only != "hot" {
+	if only != "stack" && only != "hot" && only != "wire" {
 		clonerCampaign(o, r, m)
 		humanIDCampaign(o, r)
 	}
-	if only != "cloner" && only != "hot" {
+	if only != "cloner" && only != "hot" && only != "wire" {
 		overlapCampaign(o, r)
 		stackCampaign(o, r)
 	}
-	if only != "cloner" && only != "stack" {
+	if only == "" || only == "wire" {
+		wireCampaign(o, r)
+	}
+	if only != "cloner" && only != "stack" && only != "wire" {
 		hotCampaign(o, r)
 	}
 	stackCountsMu.Lock()
